@@ -9,6 +9,45 @@ def showW : W → String | .running => "run" | .acking => "ack" | .exited => "ex
 def showS (s : S) : String :=
   s!"paused={s.paused} workers={",".intercalate ((List.range s.n).map (fun i => showW (s.subs i).st))} pending={s.pendingCalls}"
 
+/-- driver state: the model state and the workers that are busy with a seed (they do not look at their pause signal) -/
+structure DS where
+  s : S := {}
+  busy : List Nat := []
+
+/-- internal steps until nothing more can happen, except that a busy worker does not take its pause signal -/
+def settleBusy (F : Facts) (busy : List Nat) : Nat → S → S
+  | 0, s => s
+  | n + 1, s =>
+    match (enabled F s).filter (fun a => match a with | .takeToken i => !busy.contains i | _ => true) with
+    | [] => s
+    | a :: _ => match Model.Pause.step F s a with
+      | some s' => settleBusy F busy n s'
+      | none => s
+
+/-- calls still pending when every worker that can move has moved -/
+def showDS (d : DS) : String := showS d.s
+
+def stepD (base : Bool) (d : DS) (j : Json) : Except String (DS × String) := do
+  let F := if base then Zeno.Base.Pause.facts else Zeno.Gen.Pause.facts
+  let op ← str j "op"
+  let fuel := 10000
+  let call (a : Act) (what : String) : Except String (DS × String) :=
+    match Model.Pause.step F d.s a with
+    | some s' => let s'' := settleBusy F d.busy fuel s'; pure ({ d with s := s'' }, showS s'')
+    | none => throw s!"{what} not enabled"
+  match op with
+  | "init" => let s' := S.init (← nat j "n"); pure ({ s := s', busy := [] }, showS s')
+  | "pause" => call .pauseCall "pause"
+  | "resume" => call .resumeCall "resume"
+  | "stop" => call .stopCall "stop"
+  | "busy" => let i ← nat j "i"; let d' := { d with busy := i :: d.busy }; pure (d', showS d'.s)
+  | "free" =>
+    let i ← nat j "i"
+    let b := d.busy.filter (· != i)
+    let s'' := settleBusy F b fuel d.s
+    pure ({ s := s'', busy := b }, showS s'')
+  | _ => throw s!"bad op {op}"
+
 def step (base : Bool) (s : S) (j : Json) : Except String (S × String) := do
   let F := if base then Zeno.Base.Pause.facts else Zeno.Gen.Pause.facts
   let op ← str j "op"
